@@ -127,4 +127,25 @@ def createGuard (mode : Mode) (path target : Bytes) : Bool :=
     | .error _ => false
   | .posixRaw => true
 
+/-! ### Several link creations in one `Transition` call
+
+The transitioner keeps state across the creations of one call (its problem
+list). The link creations of a call, in the order they happen (transitions in
+list order, directory contents in map order), are a fold over that state. The
+guard of `createSymbolicLink` consults nothing but the mode, the link's own path
+and its target. -/
+
+structure TState where
+  created : List (Bytes × Bytes)   -- (path, target) of the links created so far
+  problems : List Bytes            -- paths for which a problem was recorded
+  deriving Repr
+
+/-- One link creation request `(path, target)`. -/
+def createStep (mode : Mode) (s : TState) (l : Bytes × Bytes) : TState :=
+  if createGuard mode l.1 l.2 then { s with created := s.created ++ [l] }
+  else { s with problems := s.problems ++ [l.1] }
+
+def createSeq (mode : Mode) (links : List (Bytes × Bytes)) : TState :=
+  links.foldl (createStep mode) { created := [], problems := [] }
+
 end Mutagen.Model.Symlink
